@@ -36,6 +36,16 @@ def instantiations(tier, seed):
     return out
 
 
+def _spec_safe(spec):
+    """spec-level: no AtMost / negatively signed AtLeast / Xor / ExactlyOne node lists a sub-proposition among its children"""
+    if spec["t"] == "var":
+        return True
+    negpar = spec["t"] in ("AtMost", "Xor", "ExactlyOne") or (spec["t"] == "AtLeast" and (spec.get("sign") == -1 or (spec.get("sign") is None and isinstance(spec.get("value"), int) and spec["value"] <= 0)))
+    if negpar and any(c["t"] != "var" for c in spec["ch"]):
+        return False
+    return all(_spec_safe(c) for c in spec["ch"])
+
+
 def _mk(ns, spec):
     m = pl.build(ns, spec["model"], {})
     if spec["via"] == "negate":
@@ -63,6 +73,11 @@ def run_inst(spec, run):
         M, crash = None, "%s: %s" % (type(e).__name__, e)
     g = _mk(ns, spec)           # fresh graph for the reference semantics
     nodes = plh.walk(ns, g)
+    if _spec_safe(spec["model"]) and not pl.solver_safe(ns, g):
+        # informational only: the property claims the converse direction for solver-safe models; a connective that used to deliver
+        # that form and no longer does is worth a line in the log, but it is not a violation of the property as stated
+        run.notes.append({"note": "built through the public connectives from a spec without negatively signed parents over sub-propositions, "
+                                  "yet the resulting model is not in solver-safe form (converse direction not claimed for it): %s via %s" % (pl.show(spec["model"]), spec["via"])})
     leaves = {k: o[0] for k, o in nodes.items() if issubclass(o[0].__class__, ns.puan.variable)}
     safe = pl.solver_safe(ns, g)
 
